@@ -52,6 +52,25 @@ def run(ctx, res):
         history(ctx, res, "random", rng.choice(["fd", "fd", "fd", "sd"]), steps)
         if i == 0:
             res.sample({"history": [(m, [("eos",) if it[0] == "eos" else (it[1], len(it[2]) if it[0] == "file" else "missing") for it in its][:4]) for m, _, its in steps]})
+    # histories that start on a third-party image whose first side(s) have a full catalog and fragmented free space:
+    # every file offered there is refused after its blocks were taken, and must leave the table as it was
+    import os
+    blobs = D.Blobs(ctx)
+    for i in range(ctx.n(4, 40)):
+        fl = rng.choice(["fd", "sd"])
+        nfull = rng.choice([1, 2, 4])
+        asides = [E.gen_aside(rng, full_catalog=(k < nfull), weird=False) for k in range(4)]
+        raw = E.render_image(ctx, blobs, asides, fl, check_twin=False)
+        used = {f["name"].decode().rstrip() + "." + f["ext"].decode().rstrip() for a in asides for f in a["files"]}
+        sc = K.Scenario(ctx, fl)
+        with open(os.path.join(sc.dir, sc.archive), "wb") as f:
+            f.write(raw)
+        for k in range(rng.choice([1, 2, 3])):
+            items = [("file", D.gen_disk_name(rng, used), T.content_for(rng, sz)) for sz in rng.sample([0, 255, 2041, 4081, 10000, 2040 * 40], rng.choice([1, 2]))]
+            raw = E.run_step(ctx, res, "full_catalog_fragmented", sc, "add", rng.random() < 0.5, items, raw, CL,
+                             {"flavour": fl, "step": k, "pre_image": "independent writer, 112 live entries on %d side(s)" % nfull}, tool_made=False)
+            if raw is None:
+                break
     # small scope: all histories of depth <= 2 (quick) / 3 (thorough) over a 9-letter alphabet of single-batch steps
     alphabet = [("0", [0]), ("s", [255]), ("b", [2040]), ("b+", [2041]), ("t", [2040 * 40]), ("F", [2040 * 157]), ("F+", [2040 * 157 + 1]), ("X", [330000]), ("eos2", None)]
     depth = 3 if ctx.thorough else 2
